@@ -30,6 +30,14 @@ EXPORT_RULE = ("export suite: the full MySQL type list (17 types) with and witho
                "Every case: MermaidJsErd / MermaidJsLive / ArvoSchema texts = Lean model; ERD and Avro field arrays re-derived from the reference "
                "schema; Live URL decoded independently; every Avro document parsed with encoding/json. non-trivial = every case; distinct by "
                "(config, schema, selection)")
+STRUCT_RULE = ("struct suite: Go source with 120 (quick) / 1200 (thorough) generated struct types is compiled per run: 1..8 exported fields with "
+               "acronym-style names, all supported Go types (13 primitives, 6 sql.Null*, nil / non-nil pointers, nested structs, []byte), every tag "
+               "kind alone and combined (column[,previous], type, primary_key, auto_increment, not_null / null, default, comment, index, unique, "
+               "index:name, unique:name, index_type, embedded, squash, embedded_prefix, '-'), nested embedded structs to depth 2, TableName methods, "
+               "x dialect x keyword case x comment generation x plural naming x custom tag key. Every case: SqlBuilder.AddTable text = Lean model; the "
+               "text is parsed by the independent grammar, executed on the reference engine and compared with the expected schema derived from the "
+               "structured tags; FromObjects must succeed and its dump / HashValue equal the model's (reader on the builder output). non-trivial = "
+               "every struct; distinct by declaration")
 PAIR_TB = [
     "hand-written model Impl/{Element,Diff,Emit,Render,ReaderMysql}.lean, tied by correspondence on generated pairs only",
     "regenerated facts: statement templates of sql-templates/*.go (factgen, go/ast) are the ones the model renders with",
@@ -280,5 +288,35 @@ PROPS = {
         "explanation": "Proved for histories of any length: convergence, empty next diff, equal fingerprint and the way back, as an assume-guarantee "
                        "composition of the one-step properties; the real multi-step workflow is driven on every run and every recorded migration is "
                        "replayed on the reference engine.",
+    },
+
+    "C06": {
+        "level": "proof",
+        "lean_modules": ["SqlizeModel.Props.C06"],
+        "theorems": ["Sqlize.C06.table_name", "Sqlize.C06.ignored_field", "Sqlize.C06.embedded_last", "Sqlize.C06.pk_first"],
+        "suites": [{"name": "struct", "kind": "struct"}],
+        "corr_points": ["AddTable", "FromObjects-dump", "FromObjects-hash"],
+        "rule": STRUCT_RULE,
+        "trusted_base": COMMON_TB + PAIR_TB + ["reflect is not modelled: a declaration is what reflect shows (field names, Go types incl. nil / non-nil pointers, raw tags, TableName method), produced by the generator next to the Go source",
+                                               "the expected schema is derived by the generator from the structured tag items by the documented conventions (independent of builder and model)",
+                                               "Impl/Atoms.lean: how the MySQL parser canonicalises type spellings (validated by the same runs)"],
+        "assumptions": ["exported ASCII field names", "supported Go types (no nil pointers / slices without a type tag)", "at least one column"],
+        "explanation": "Proved of the builder model: table naming, ignored fields, own-then-embedded order, primary key first with the other lines in "
+                       "order. The per-field clause is decided by exact DDL text correspondence plus the expected-schema oracle on generated structs.",
+    },
+    "C10": {
+        "level": "proof",
+        "lean_modules": ["SqlizeModel.Props.C10"],
+        "theorems": ["Sqlize.C10.keyword_spellings", "Sqlize.C10.keywords_fixed", "Sqlize.C10.apply_only_case", "Sqlize.C10.hash_case_free"],
+        "suites": [{"name": "struct", "kind": "struct"}, {"name": "hash"}],
+        "corr_points": ["AddTable", "AddTable-other-case"],
+        "rule": STRUCT_RULE + " | C10: per tag keyword a random camelCase / snake_case spelling and a shuffled item order, the expected schema does not "
+                "depend on either; every struct is rendered under both keyword-case options (texts equal up to ASCII case, quoted identifiers / "
+                "literals / comments identical); hash suite: same HashValue under both options",
+        "trusted_base": COMMON_TB + PAIR_TB,
+        "assumptions": ["exported ASCII field names"],
+        "explanation": "Proved by kernel evaluation of the ToSnakeCase model: every documented camelCase spelling normalises to the keyword the tag "
+                       "switch tests; proved over the regenerated templates: the lower-case option is exactly ASCII lower-casing of the template; "
+                       "fingerprint independent of the option (C07).",
     },
 }
